@@ -175,7 +175,24 @@ def random_vary(tier, seed, n=None):
             steps.append({"op": "tick", "d": d})
         out.append({"id": "rndvary/%06d" % i, "backend": "fs" if i % 10 == 0 else ("fsenc" if i % 10 == 5 else "mem"),
                     "opt": {}, "steps": steps, "grp": "", "spv": 0})
-    return out + refresh_cycles(tier) + reused_requests(tier)
+    return out + refresh_cycles(tier) + reused_requests(tier) + unusual_values(tier)
+
+
+def unusual_values(tier):
+    """every kind of selecting value (two field lines, bytes that are not UTF-8, empty, lower-case map keys) stored, requested
+    again (owed from the store while fresh), and crossed with its nearest neighbours (never each other's response)"""
+    out = []
+    i = 0
+    for v in ([2], [2, 3]):
+        for a_, b_ in ((6, 1), (1, 6), (6, 2), (4, 5), (5, 4), (3, 0), (4, 1)):
+            for raw in (0, 1):
+                fresh = ans(ccp=1, ma=1000, etag=1, vary=v)
+                steps = []
+                for cls in (a_, a_, b_, a_, b_):
+                    steps += [{"op": "req", "rq": rq(sel=[0, 0, cls, 0], rawkeys=raw), "ans": [fresh]}, {"op": "tick", "d": 1}]
+                out.append({"id": "unusual/%03d" % i, "backend": "fs" if i % 4 == 0 else "mem", "opt": {}, "steps": steps, "grp": "", "spv": 0})
+                i += 1
+    return out
 
 
 def reused_requests(tier):
